@@ -7,7 +7,7 @@ RULE = ("each obligation is one Kani/CBMC query with Kani's panic / overflow / s
 
 SPECS = [p_kani.Spec("steel-core", "steel-core/src/primitives/numbers.rs", "num.rs", "verif_num"),
          p_kani.Spec("steel-core", "steel-core/src/compiler/map.rs", "sym.rs", "verif_sym")]
-FUNCS = ["primitives::numbers::{arithmetic_shift, abs, negate, add_two, truncate_quotient, floor_remainder, euclidean_remainder, even, odd}",
+FUNCS = ["primitives::numbers::{arithmetic_shift, expt (integer base, exponent -30), abs, negate, add_two, truncate_quotient, floor_remainder, euclidean_remainder, even, odd}",
          "compiler::map::SymbolMap::{add, roll_back}"]
 ASSUME = [
     "Kani checks overflow as the dev/test profile does (overflow-checks on); a wrapped value in release is a C10 matter",
@@ -21,6 +21,7 @@ def plan(tier):
     q = [
         {"h": "num_arithmetic_shift_exact", "spec": 0, "sym": "n: isize, m: isize"},
         {"h": "num_abs_i", "spec": 0, "sym": "x: isize"},
+        {"h": "num_expt_minus_30_total", "spec": 0, "sym": "(expt l -30), 0 < |l| <= 12"},
         {"h": "sym_rollback_with_recycled_slot", "spec": 1, "sym": "f in {1,2,3}",
          "classify": {KF_RESIDUE: r"reused a released slot"}, "known": {KF_RESIDUE: "sym_rollback_with_recycled_slot__kf"}},
         {"h": "sym_rollback_1_1", "spec": 1, "sym": "f1 in {1,2,3}"},
